@@ -46,6 +46,7 @@ TYPES = {
     "Result<u8, String>": ["Ok(1u8)"],
     "std::time::Duration": ["std::time::Duration::new(1, 5)"],
 }
+PINNED = {}   # version type name -> hand-picked values (Rust expressions)
 OPTION_SPELLINGS = ["Option<{}>", "std::option::Option<{}>", "core::option::Option<{}>"]
 
 
@@ -541,6 +542,21 @@ def main():
             [("add", "x", "0"), ("rem", "z"), ("add", "description", "Some(\"hello\".to_string())"), ("opt", "description"), ("tra", "description")]),
     ]
     hists.append(("HPoint", h0, False))
+    # finding D17: a removed field (the last, here the only, one of chunk 0) holds the first occurrence of a deduplicated string
+    DS = "crate::v::DStr"
+    dsd = "crate::v::DStr(String::new())"
+    hds = [
+        Rec("HDsV0", [F("z", DS)]),
+        Rec("HDsV1", [F("z", DS), F("c", DS)], [("add", "c", dsd)]),
+        Rec("HDsV2", [F("z", DS), F("c", DS), F("d", DS)], [("add", "c", dsd), ("add", "d", dsd)]),
+        Rec("HDsV3", [F("c", DS), F("d", DS)], [("add", "c", dsd), ("add", "d", dsd), ("rem", "z")]),
+    ]
+    hists.append(("HDs", hds, False))
+    def ds(x):
+        return "crate::v::DStr(\"%s\".to_string())" % x
+    PINNED["HDsV1"] = ["HDsV1 { z: %s, c: %s }" % (ds("p"), ds("p"))]
+    PINNED["HDsV2"] = ["HDsV2 { z: %s, c: %s, d: %s }" % (ds("p"), ds("q"), ds("p")),
+                       "HDsV2 { z: %s, c: %s, d: %s }" % (ds("p"), ds("p"), ds("p"))]
     for i in range(N_HISTORIES):
         hists.append(("H%d" % i, history(rng, "H%d" % i), False))
 
@@ -566,7 +582,7 @@ def main():
     # holders that embed an evolved record between siblings
     out.append("\n/// S-expressions of every generated declaration, for the model's environment")
     out.append("pub fn env_lines() -> Vec<String> {\n    vec![\n%s\n    ]\n}" % ",\n".join("        format!(\"env {}\", %s)" % e for e in env_fns))
-    out.append("\npub trait DeclVisitor {\n    fn decl<T: V + VaryTransient>(&mut self);\n    fn pair<W: V, R: V>(&mut self, hist: &str, w: usize, r: usize, removed_chunk0_after_w: bool);\n    fn ext<E1: V, E2: V>(&mut self, n_old: usize);\n}")
+    out.append("\npub trait DeclVisitor {\n    fn decl<T: V + VaryTransient>(&mut self);\n    fn pair<W: V, R: V>(&mut self, hist: &str, w: usize, r: usize, removed_chunk0_after_w: bool, pinned: Vec<W>);\n    fn ext<E1: V, E2: V>(&mut self, n_old: usize);\n}")
     out.append("\npub fn visit_decls<Vis: DeclVisitor>(v: &mut Vis) {\n%s\n}" % "\n".join("    v.decl::<%s>();" % n for n in names))
     pair_lines = []
     for (hname, vnames), (_, versions, _) in zip(hist_names, hists):
@@ -576,7 +592,8 @@ def main():
                 wser = [f.name for f in versions[w].fields if f.role != "transient" and not any(s[0] == "add" and s[1] == f.name for s in versions[w].steps)]
                 rser = [f.name for f in versions[r].fields if f.role != "transient"]
                 lacks = any(n not in rser for n in wser)
-                pair_lines.append("    v.pair::<%s, %s>(\"%s\", %d, %d, %s);" % (vnames[w], vnames[r], hname, w, r, "true" if lacks else "false"))
+                pinned = "vec![%s]" % ", ".join(PINNED.get(vnames[w], []))
+                pair_lines.append("    v.pair::<%s, %s>(\"%s\", %d, %d, %s, %s);" % (vnames[w], vnames[r], hname, w, r, "true" if lacks else "false", pinned))
     out.append("\npub fn visit_hists<Vis: DeclVisitor>(v: &mut Vis) {\n%s\n}" % "\n".join(pair_lines))
     out.append("\npub fn visit_exts<Vis: DeclVisitor>(v: &mut Vis) {\n    v.ext::<Ext1, Ext2>(2);\n    v.ext::<ExtS1, ExtS2>(2);\n    v.ext::<ExtC1, ExtC2>(2);\n}")
     out.append("\npub const N_DECLS: usize = %d;\npub const N_HISTORIES: usize = %d;" % (len(names), len(hists)))
